@@ -47,7 +47,7 @@ def main():
             out["repo_tests"] = t.stdout.strip().splitlines()[-1] if t.stdout.strip() else t.stderr[-200:]
         for chk in a.checks:
             r = subprocess.run([os.path.join(VERIF, "vcheck"), chk, "--tier", a.tier], capture_output=True, text=True,
-                               env=dict(os.environ, VERIF_REPO_SRC=os.path.join(d, "src"), VERIF_SEED=a.seed))
+                               env=dict(os.environ, VERIF_REPO_SRC=os.path.join(d, "src"), VERIF_EVIDENCE_DIR=os.path.join(d, "evidence"), VERIF_SEED=a.seed))
             viol = [l for l in r.stdout.splitlines() if l.startswith("VIOLATION")]
             out[chk] = {"exit": r.returncode, "violations": len(viol), "first": viol[0][:300] if viol else "",
                         "stderr_tail": r.stderr[-300:] if r.returncode == 2 else ""}
